@@ -227,8 +227,62 @@ pub fn replay_datalayer(input: &Value) -> (bool, String) {
     (false, format!("history {case}: holds"))
 }
 
+/// Ground obligation for C14: every operation on a successfully decoded value completes without panicking.
+/// Fixed input: a version-2 ProofOfSpace whose proof bytes do not validate.
+pub fn pos_v2_hash() -> EvalResult {
+    use chia_protocol::ProofOfSpace;
+    use chia_traits::Streamable;
+    let mut res = EvalResult { obligations: 0, discharged: 0, failures: vec![], samples: vec![], exhaustive: true };
+    // challenge (32) ‖ pool_public_key = None (00) ‖ prefix 0b11 ‖ pool_contract_puzzle_hash (32) ‖ plot_public_key (48, generator)
+    // ‖ plot_index u16 ‖ meta_group u8 ‖ strength u8 ‖ proof: u32 length 4 ‖ 4 junk bytes
+    let g1 = chia_bls::PublicKey::generator().to_bytes();
+    let mut bytes = vec![0u8; 32];
+    bytes.push(0);
+    bytes.push(0b11);
+    bytes.extend_from_slice(&[7u8; 32]);
+    bytes.extend_from_slice(&g1);
+    bytes.extend_from_slice(&[0, 1, 2, 3]);
+    bytes.extend_from_slice(&[0, 0, 0, 4, 0xde, 0xad, 0xbe, 0xef]);
+    res.obligations += 1;
+    let verdict: Result<(), String> = match ProofOfSpace::from_bytes(&bytes) {
+        Err(_) => Ok(()), // rejected at decode: fine
+        Ok(v) => {
+            let re = v.to_bytes().map_err(|e| format!("re-encode failed: {e}"));
+            match re {
+                Err(e) => Err(e),
+                Ok(b) if b != bytes => Err("re-encoding differs from the decoded bytes".into()),
+                Ok(_) => {
+                    let prev = std::panic::take_hook();
+                    std::panic::set_hook(Box::new(|_| {}));
+                    let r = std::panic::catch_unwind(std::panic::AssertUnwindSafe(|| v.hash()));
+                    std::panic::set_hook(prev);
+                    match r { Ok(_) => Ok(()), Err(_) => Err("from_bytes returned Ok and to_bytes reproduces the input, but hash() panics".into()) }
+                }
+            }
+        }
+    };
+    match verdict {
+        Ok(()) => res.discharged += 1,
+        Err(m) => res.failures.push(json!({"id": "pos_v2_hash/junk-proof-126-bytes", "function": "ProofOfSpace::update_digest",
+            "message": format!("ProofOfSpace v2 with a non-validating 4-byte proof ({} bytes, hex {}): {m}", bytes.len(), hex::encode(&bytes)),
+            "clause": "every operation on a successfully decoded value completes without panicking",
+            "cex": {"unit": "eval", "function": "pos_v2_hash", "input": {"bytes": hex::encode(&bytes)}}})),
+    }
+    res.samples.push(json!({"obligation": "decode(v2 PoS with junk proof) is Err, or hash() of the decoded value returns", "backend": "native-eval"}));
+    res
+}
+
+pub fn replay_pos(_input: &Value) -> (bool, String) {
+    let r = pos_v2_hash();
+    match r.failures.first() {
+        Some(f) => (true, f["message"].as_str().unwrap_or("").to_string()),
+        None => (false, "decode rejects the value or hash() returns".into()),
+    }
+}
+
 pub fn run(task: &str) -> Option<EvalResult> {
     match task {
+        "pos_v2_hash" => Some(pos_v2_hash()),
         "datalayer_ground" => Some(datalayer_ground()),
         "bls_cache_ground" => Some(bls_cache_ground()),
         "cost_table" => Some(cost_table()),
